@@ -76,7 +76,7 @@ def to_call(rec, rng, tpls):
             "n": rec["n"], "m": rec["m"], "dag": rec["dag"], "beh": beh, "tagset": rec["tagset"]}
 
 
-def to_sessions(recs, rng, targets=("engine", "pool"), chain=1, sample=None, btpl=0.25):
+def to_sessions(recs, rng, targets=("engine", "pool"), chain=1, sample=None, btpl=0.25, warm=0.2):
     """Wraps generated scenarios into driver sessions.  chain > 1 groups scenarios
     over the same rule set into sessions of up to `chain` consecutive calls on
     one engine (C11)."""
@@ -112,12 +112,47 @@ def to_sessions(recs, rng, targets=("engine", "pool"), chain=1, sample=None, btp
                         elif c["method"] in EM_SEL and x == 0:
                             c["via"] = "emSelected"
                 sid += 1
-                sessions.append({
-                    "id": sid, "target": tgt,
-                    "gated": any(c["method"] not in SEQ_ONLY for c in calls),
-                    "rules": [{"name": ru["name"], "sal": ru["sal"], "tpl": tpls[ru["name"]]} for ru in rules],
-                    "calls": calls})
+                decl = [{"name": ru["name"], "sal": ru["sal"], "tpl": tpls[ru["name"]]} for ru in rules]
+                gated = any(c["method"] not in SEQ_ONLY for c in calls)
+                sess = {"id": sid, "target": tgt, "gated": gated, "burst": gated and rng.random() < 0.5,
+                        "rules": decl, "calls": calls}
+                if warm and decl and rng.random() < warm:
+                    warm_up(sess, rng)
+                sessions.append(sess)
     return sessions
+
+
+def warm_up(sess, rng):
+    """The rule set of the session is reached through an update: the session starts
+    from a neighbouring rule set, performs the first call there, and then installs
+    the intended rule set by an incremental build, a removal or a full rebuild
+    (so that insertion, replacement and removal code feeds the execution models)."""
+    decl = sess["rules"]
+    first = json.loads(json.dumps(sess["calls"][0]))
+    kind = rng.choice(["add", "sal", "remove", "full"])
+    if kind == "add" and len(decl) < 2:
+        kind = "sal"
+    if kind == "add":
+        x = rng.choice(decl)
+        start = [d for d in decl if d["name"] != x["name"]]
+        pre = [{"op": "incr", "rules": [x], "names": []}]
+    elif kind == "sal":
+        x = rng.choice(decl)
+        start = [dict(d, sal=d["sal"] + rng.choice([-2, -1, 1, 2])) if d["name"] == x["name"] else d for d in decl]
+        pre = [{"op": "incr", "rules": [x], "names": []}]
+    elif kind == "remove":
+        extra = {"name": "r9", "sal": rng.choice([-1, 0, 1, 5]), "tpl": "A"}
+        start = decl + [extra]
+        first["beh"]["r9"] = "ok"
+        pre = [{"op": "remove", "rules": [], "names": ["r9"] + (["zz"] if rng.random() < 0.3 else [])}]
+    else:
+        sals = [d["sal"] for d in decl]
+        rng.shuffle(sals)
+        start = [dict(d, sal=s2) for d, s2 in zip(decl, sals)]
+        pre = [{"op": "full", "rules": decl, "names": []}]
+    sess["rules"] = start
+    sess["calls"][0]["pre"] = pre
+    sess["calls"].insert(0, first)
 
 
 def random_sessions(run, binary, n, family, seed):
